@@ -23,8 +23,9 @@ from deap.benchmarks import tools as btools
 
 ANCHORS = [("deap/benchmarks/__init__.py", []), ("deap/benchmarks/binary.py", []),
            ("deap/benchmarks/gp.py", []),
-           ("deap/benchmarks/movingpeaks.py", ["cone", "sphere", "function1", "MovingPeaks"]),
-           ("deap/benchmarks/tools.py", ["translate", "rotate", "noise", "scale", "bound"])]
+           ("deap/benchmarks/movingpeaks.py", ["cone", "sphere", "function1", "MovingPeaks", "diversity"]),
+           ("deap/benchmarks/tools.py", ["translate", "rotate", "noise", "scale", "bound", "diversity", "convergence",
+                                         "hypervolume", "igd"])]
 LEVEL = "proof"
 STRENGTH = "partial"
 MIN_CASES = 5000
@@ -36,7 +37,14 @@ RULE = ("continuous/gp/multi-objective: every function x dimensions 0..30 as it 
         "peaks: evaluation over the whole configuration space (heights / widths of either sign, zero widths, basis below, "
         "between or above the peaks, points on / next to peak centres); the three standard scenarios and inverted / "
         "around-zero variants, fixed and fluctuating peak numbers, recorded tape, 50 changes; counted "
-        "evaluations (nevals, change exactly when period > 0 and nevals % period == 0) with periods -3..10. "
+        "evaluations (nevals, change exactly when period > 0 and nevals % period == 0) with periods -3..10; "
+        "object histories (c20_more.py): 1..3 MovingPeaks objects built from ONE scenario dictionary / ONE pfunc list or tuple "
+        "(one function, a list of exactly npeaks functions, a longer pool -> random.sample, a shorter one -> rejected), own or "
+        "shared random source, 8..40 interleaved changePeaks / evaluations / counted evaluations (offline error), every object "
+        "checked after every action, the caller's list / dictionary checked for modification; decorators re-parameterised "
+        "through .translate/.rotate/.scale/.noise (alone and stacked) with fresh / re-used / in-place refilled lists, tuples, "
+        "numpy arrays and lists of rows (exact and QR matrices); globalMaximum / maximums / diversity(population); the quality "
+        "indicators diversity / convergence / igd / hypervolume of benchmarks.tools. "
         "Non-trivial = distinct case that is not a rejected (error) input")
 EXHAUSTIVE = {"quick": False, "thorough": False}
 TIME_BUDGET = {"quick": 60, "thorough": 900}
@@ -44,7 +52,11 @@ TRUSTED = ["IEEE-754 / libm: the Float instance of the model calls the same corr
            "platform's exp/log/sin/cos/pow; agreement is asserted only within 1e-9 relative (rounding is not modelled; "
            "CPython 3.12 sums floats with compensation, the model sums naively)",
            "numpy.linalg.inv as a parameter with the contract inv(R) R = I (rotate); numpy.dot as row inner products",
-           "random.random/uniform/gauss/randrange/choice as sources of arbitrary draws (recorded tape)"]
+           "random.random/uniform/gauss/randrange/choice/sample as sources of arbitrary draws (recorded tape)",
+           "scipy.spatial.distance.cdist (igd): scipy is not installed in this sandbox, the harness lends benchmarks.tools a "
+           "numpy stand-in with the contract cdist(A, Z)[i][j] = |A_i - Z_j| (a parameter of the model); with scipy present "
+           "the real function is used",
+           "math.hypot as sqrt(a^2 + b^2) (diversity)"]
 ASSUMPTIONS = ["inputs are finite doubles in (or near) the documented range, as Python lists or numpy arrays",
                "binary individuals are sequences of the ints 0/1 (the source rejects True/False and 1.0/0.0 through "
                "int(''.join(map(str, ...)), 2)); the model type for them is List Bool",
@@ -52,11 +64,24 @@ ASSUMPTIONS = ["inputs are finite doubles in (or near) the documented range, as 
                "definition — rastrigin_skew uses cos(2 pi y_i) (Hansen & Kern 2004), movingpeaks.function1 is h / (1 + w |x-p|^2) "
                "(Branke 1999, no square root), chuang_f3's optima are 0...0 and 11 0...0 11 (not all ones)",
                "theorems are over the reals / exact rationals; equality of each float function with its definition is a "
-               "tolerance correspondence (partial)"]
+               "tolerance correspondence (partial)",
+               "decorator histories: an argument object is changed in place only in order to be passed to the setter again "
+               "(what an object modified behind the decorator's back means is not fixed by the statement: translate keeps the "
+               "caller's vector by reference, scale and rotate keep derived copies); one-shot iterators are not vectors",
+               "moving-peaks objects: peak functions are cone / function1 / sphere of the module; a list of peak functions "
+               "shorter than the number of peaks is rejected by the constructor (random.sample raises), which is not a failure",
+               "the quality indicators of benchmarks.tools and MovingPeaks.globalMaximum / maximums / offlineError / "
+               "diversity(population) are not named by the statement: they are covered by model-vs-implementation comparison "
+               "(a difference is reported as a correspondence break), not by the oracle"]
 EXPLANATION = ("Front identities (DTLZ1 sum, DTLZ2-6 norm, ZDT f2 = g h), the exactly documented optima, the binary "
                "optima, bin2float range, decorator arguments and the moving-peaks max / count invariant are Lean "
                "theorems over R / Q for all dimensions, objective counts, tapes and histories; the models are tied to "
-               "deap.benchmarks by this differential run; optima documented to a few decimals are numeric tests only.")
+               "deap.benchmarks by this differential run; optima documented to a few decimals are numeric tests only.  "
+               "Benchmark objects are modelled with value semantics (MovingPeaks.init / Bench.step / World.run): the count "
+               "invariant and evaluation = max hold along every history of every object built by any of the constructor's "
+               "three pfunc paths, and objects built from the same arguments are independent (mp_instances_independent) - "
+               "the mpworld stream checks that the implementation shares nothing either; decorator setters install the "
+               "parameter in force (translate/scale/rotate_history), checked with re-used and in-place refilled arguments.")
 
 TOL = 1e-9
 pi = math.pi
@@ -715,11 +740,21 @@ def ev_noise(d):
     def func(ind):
         return tuple(result)
     specs = [d["spec"]] + list(d.get("reset", []))
-    fn = btools.noise(noise_arg(specs[0], draw))(func)
+    hows = [None] + list(d.get("how", []))            # how the setter's argument object is supplied
+    cur = noise_arg(specs[0], draw)
+    fn = btools.noise(cur)(func)
     lines, expect, orc = [], [], None
     for i, spec in enumerate(specs):
         if i > 0:
-            fn.noise(noise_arg(spec, draw))
+            how = hows[i] if i < len(hows) else "fresh"
+            new = noise_arg(spec, draw)
+            if how == "reuse":                          # the very object passed before, unchanged
+                spec = specs[i] = specs[i - 1]
+            elif how == "inplace" and isinstance(cur, list) and isinstance(new, list):
+                cur[:] = new                            # the object passed before, with new contents
+            else:
+                cur = new
+            fn.noise(cur)
         before = list(pool)
         lines.append("C20 noise %s %s %s" % (spec, fl(result), fl(before)))
         try:
@@ -739,7 +774,8 @@ def ev_noise(d):
                 orc = "noise (call #%d, spec %s) returned %r, result + draws = %r" % (i, spec, out, [float(w) for w in want])
             elif len(pool) != len(before) - used:
                 orc = "noise consumed %d draws for %d noisy objectives" % (len(before) - len(pool), used)
-    tag = "dec/noise/" + (d["spec"].split(":")[0] if len(specs) == 1 else "setter-history/%d" % len(specs))
+    tag = "dec/noise/" + (d["spec"].split(":")[0] if len(specs) == 1 else "setter-history/%d%s" % (
+        len(specs), "/" + "+".join(sorted(set(d["how"]))) if d.get("how") else ""))
     return Case(d, lines, expect, orc, tag=tag, tol=TOL)
 
 
@@ -748,8 +784,14 @@ def ev_bound(d):
 
     def op():
         return [list(r) for r in rows]
-    out = btools.bound(lambda v: True, d["kind"])(op)()
+    fn = btools.bound(lambda v: True, d["kind"])(op)
+    out = fn()
     orc = None if [list(r) for r in out] == [list(r) for r in rows] else "bound changed the individuals"
+    # a history: the decorated operator again, and the `bound` attribute the decorator publishes, on the same objects
+    again = fn()
+    direct = fn.bound(out)
+    if orc is None and ([list(r) for r in again] != [list(r) for r in rows] or direct is not out):
+        orc = "CORRESPONDENCE: bound (%s) on repeated use returned %r / %r" % (d["kind"], again, direct)
     return Case(d, ["C20 bound %s %s" % (d["kind"], fl2(rows))], [fl2(out)], orc, tag="dec/bound/" + d["kind"])
 
 
@@ -1038,6 +1080,9 @@ EV = {"f": ev_single, "shekel": ev_shekel, "mo": ev_mo, "bin": ev_bin, "b2f": ev
 
 
 def evaluate(d):
+    if d["k"] not in EV:
+        from props import c20_more          # object histories, remaining public functions (imports this module)
+        return c20_more.EV_MORE[d["k"]](d)
     return EV[d["k"]](d)
 
 
@@ -1340,7 +1385,14 @@ def gen_dec(rng, nrand):
         yield {"k": "noise", "spec": spec, "result": result, "draws": [dyadic(rng, 2) for _ in range(nd)]}
         if rng.random() < 0.3:
             mk = lambda: rng.choice(["rep1", "rep0", "each:" + "".join(rng.choice("01") for _ in range(m))])
-            yield {"k": "noise", "spec": mk(), "result": result, "reset": [mk() for _ in range(rng.randint(1, 3))],
+            resets = [mk() for _ in range(rng.randint(1, 3))]
+            yield {"k": "noise", "spec": mk(), "result": result, "reset": resets,
+                   "draws": [dyadic(rng, 2) for _ in range(4 * m + 2)]}
+            # the same with re-used / in-place refilled argument lists (one entry per objective)
+            mke = lambda: "each:" + "".join(rng.choice("01") for _ in range(m))
+            resets = [mke() for _ in range(rng.randint(1, 3))]
+            yield {"k": "noise", "spec": mke(), "result": result, "reset": resets,
+                   "how": [rng.choice(["inplace", "reuse", "fresh", "inplace"]) for _ in resets],
                    "draws": [dyadic(rng, 2) for _ in range(4 * m + 2)]}
         if rng.random() < 0.2:
             yield {"k": "bound", "kind": rng.choice(["mirror", "wrap", "clip"]),
@@ -1436,12 +1488,17 @@ def numpy_twin(d, rng):
 def generate(tier, rng, mult):
     """streams in the order of the statement's clauses (a time budget truncates from the end); the seed varies the
     inputs inside every stream, never which streams run"""
+    from props import c20_more as more
     thorough = tier == "thorough"
     per = (100 if thorough else 10) * mult
     streams = [gen_single(rng, per * 2), gen_rand(rng, (400 if thorough else 40) * mult), gen_mo(rng, per * 2),
                gen_mp(rng, (150 if thorough else 10) * mult, 50),
+               more.gen_mpworld(rng, (4200 if thorough else 420) * mult),
+               more.gen_dechist(rng, (19200 if thorough else 1920) * mult),
                gen_stack(rng, (6000 if thorough else 400) * mult),
                gen_dec(rng, (60000 if thorough else 4000) * mult),
+               more.gen_mpextra(rng, (3000 if thorough else 300) * mult),
+               more.gen_ind(rng, (4000 if thorough else 400) * mult),
                gen_b2f(rng, (60000 if thorough else 5000) * mult, 5 if thorough else 4),
                gen_bin(rng, 12 if thorough else 9, (100000 if thorough else 6000) * mult)]
     for st in streams:
@@ -1490,6 +1547,23 @@ def shrink(d):
             key = "t" if k == "translate" else "f"
             e[key] = d[key][:i] + d[key][i + 1:]
             yield e
+    if k == "mpworld":
+        ops = d["ops"]
+        if len(ops) > 1:
+            yield dict(d, ops=ops[:len(ops) // 2])
+            yield dict(d, ops=ops[:-1])
+            for i in range(min(len(ops), 12)):
+                yield dict(d, ops=ops[:i] + ops[i + 1:])
+        if d["dim"] > 1:
+            yield dict(d, dim=1, ops=[o if len(o) < 3 else [o[0], o[1], o[2][:1]] for o in ops])
+    if k == "dechist":
+        st = d["steps"]
+        for i in range(len(st)):
+            if len(st) > 1:
+                yield dict(d, steps=st[:i] + st[i + 1:])
+        for i, s_ in enumerate(st):
+            if s_.get("scribble") is not None:
+                yield dict(d, steps=st[:i] + [{k_: v for k_, v in s_.items() if k_ != "scribble"}] + st[i + 1:])
     if k == "mpcall" and len(d["peaks"]) > 1:
         for i in range(len(d["peaks"])):
             yield dict(d, peaks=d["peaks"][:i] + d["peaks"][i + 1:])
